@@ -160,6 +160,58 @@ def check_commit(case, ctx):
         ctx.label(f"path_len={len(want[33:]) // 32}")
 
 
+# ------------------------------------------------------------------ object reuse
+
+TREE_OPS = ["hash", "leaves", "control_block", "external_pubkey", "path_hashes", "leaf_hash", "p2tr_script"]
+
+
+def reuse_cases(tier):
+    op = st.tuples(st.sampled_from(TREE_OPS), st.integers(0, 7), st.integers(0, 1))
+    return st.fixed_dictionaries({
+        "secrets": st.tuples(gen.secrets(), gen.secrets()),
+        "tree": shapes(), "ops": st.lists(op, min_size=3, max_size=7),
+    })
+
+
+def check_reuse(case, ctx):
+    """ONE tree object and TWO internal keys answer a sequence of queries in generated order"""
+    Ps = [ec.mul(s) for s in case["secrets"]]
+    internals = [pt(p) for p in Ps]
+    tree = label_leaves(case["tree"], [0])
+    rtree = to_ref(tree)
+    root, leaves = rt.tree_info(rtree)
+    btree = to_buidl(tree)
+    ctx.nontrivial(len(leaves) >= 2)
+    for what, i, k in case["ops"]:
+        ctx.label("op:" + what)
+        li = i % len(leaves)
+        (ver, script), path = leaves[li]
+        if what == "hash":
+            require(btree.hash() == root, "reuse/hash")
+        elif what == "leaves":
+            bl = btree.leaves()
+            require([(x.tapleaf_version, x.tap_script.raw_serialize()) for x in bl]
+                    == [lf for lf, _ in leaves], "reuse/leaves")
+        elif what == "leaf_hash":
+            require(btree.leaves()[li].hash() == rt.leaf_hash(script, ver), "reuse/leaf_hash")
+        elif what == "path_hashes":
+            if len(leaves) > 1:
+                got = btree.path_hashes(btree.leaves()[li])
+                require(b"".join(got) == path, "reuse/path_hashes")
+        elif what == "control_block":
+            cb = btree.control_block(internals[k], btree.leaves()[li])
+            require(cb is not None and cb.serialize() == rt.control_block(Ps[k], rtree, li),
+                    "reuse/control_block", f"leaf {li} internal {k}")
+        elif what == "external_pubkey":
+            par, Q = rt.tweak_pubkey(Ps[k], root)
+            e = btree.external_pubkey(internals[k])
+            require((e.x.num, e.y.num) == Q and e.parity == par, "reuse/external_pubkey")
+        elif what == "p2tr_script":
+            _, Q = rt.tweak_pubkey(Ps[k], root)
+            require(internals[k].p2tr_script(btree.hash()).raw_serialize() == b"\x51\x20" + ec.xonly(Q),
+                    "reuse/p2tr_script")
+
+
 # ----------------------------------------------------------------------- tamper
 
 
@@ -264,6 +316,9 @@ SUBS = [
         required=["internal_parity=0", "internal_parity=1", "output_parity=0", "output_parity=1",
                   "no_tree", "leaves=1", "leaves=8", "swapped_siblings", "path_len=0", "path_len=3"],
         nontrivial_rule="tree with >= 2 leaves"),
+    Sub("tree_object_reuse", check_reuse, strategy=reuse_cases, stateful=True,
+        budget={"quick": 250, "thorough": 8000}, required=["op:" + o for o in TREE_OPS],
+        nontrivial_rule="history on a tree with >= 2 leaves"),
     Sub("tamper", check_tamper, strategy=tamper_cases,
         budget={"quick": 400, "thorough": 10000},
         required=["cb_positions", "script_positions", "cb_positions_with_ec_check", "path_len=0",
